@@ -14,7 +14,7 @@ MANIFEST_ENTRY = {
     "level_text": "Deductive proof for stacks of any length, any pattern of returns and any placement of run_always algos (loop invariants over ghost call counts and stamps), "
     "nested stacks by modularity; Strategy.run proved against its ghost call log.",
     "level_note": "Algos are opaque deterministic functions of the run (A-DET) and pairwise distinct objects within one stack; invocation order inside the run_always mode is proved only as exact call counts; "
-    "RunIfOutOfBounds is verified on a fresh tree (root not stale at entry) and for non-zero targets of held children; its cash branch is a recorded defect (known finding: targets.value on a dict/Series).",
+    "RunIfOutOfBounds is verified on fresh and stale trees (the first weight read must refresh a stale tree; deviations are measured on the refreshed weights) for non-zero targets of held children; its cash branch is a recorded defect (known finding: targets.value on a dict/Series).",
     "technique": "contract-based deductive verification: VCs from the real AST (pyvc) + z3; loop invariants with ghost call log and existential witnesses",
 }
 
